@@ -1,4 +1,4 @@
-import PepperProofs.ConstraintGenComp
+import PepperProofs.ConstraintGenTotal
 /-!
 # C15 — over-constrained specifications are reported, not passed on
 
@@ -92,10 +92,10 @@ theorem loaded_wellformed {stmts : List Stmt} {spec : Spec}
     (`link_realised`), then the abstract core (`core_partition`) picks a base per class and its complement on the
     partner class.
 
-    The hypotheses `hs`/`hb` say that the seeding itself raised nothing.  On documents accepted by the reader it
-    can only raise in the structure layout, when a non-empty strand occurs in no structure (`None + int`); that it
-    raises nothing else is not a theorem here — it is observed on every sampled document by the correspondence
-    (the model's error class always equals the implementation's). -/
+    The hypotheses `hs`/`hb` say that the seeding itself raised nothing.  For the strand layout they are theorems
+    (`error_iff_unsat_strand`).  In the structure layout the seeding raises when a non-empty strand occurs in no
+    structure (`None + int`); that it raises in no other case is not a theorem here — it is observed on every
+    sampled document by the correspondence (the model's error class always equals the implementation's). -/
 theorem error_iff_unsat {mode : Layout} {stmts : List Stmt} {spec : Spec}
     (hload : Pil.load Generated.nupackTable stmts {} = .ok spec) {s : Seeds} {c : Cons}
     (hs : seeds mode spec = .ok s) (hb : build s = .ok c) :
@@ -108,6 +108,29 @@ theorem error_iff_unsat {mode : Layout} {stmts : List Stmt} {spec : Spec}
     exact hg (graphSat_of_satisfiable S.wf S.ok pil_N.2 hs hb hsat)
   · intro hn hg
     exact hn (satisfiable_of_graphSat S hg)
+
+/-- **C15 for the strand layout (the default of `pepper-design-spurious`), without side conditions.**  For every
+    document the reader accepts, `get_constraints` in the strand layout fails with the `ValueError` of
+    `propagate_templates` exactly when the specification is unsatisfiable; the seeding itself never raises
+    (`seeding_total_strand`: no index initialised twice, every link joins initialised indices, every loop body
+    returns). -/
+theorem error_iff_unsat_strand {stmts : List Stmt} {spec : Spec}
+    (hload : Pil.load Generated.nupackTable stmts {} = .ok spec) :
+    getConstraints .strand spec = .error .overconstrained ↔ ¬ Satisfiable Generated.pilTable (Pil.denote spec) := by
+  obtain ⟨s, c, hs, hb⟩ := seeding_total_strand (load_wf hload)
+  exact error_iff_unsat hload hs hb
+
+/-- In the strand layout the only outcomes are: arrays, the over-constrained error, or (a document without any
+    nucleotide on a strand) `dump` having nothing to number. -/
+theorem strand_outcomes {stmts : List Stmt} {spec : Spec}
+    (hload : Pil.load Generated.nupackTable stmts {} = .ok spec) :
+    (∃ a, getConstraints .strand spec = .ok a) ∨ getConstraints .strand spec = .error .overconstrained ∨
+    getConstraints .strand spec = .error .noPositions := by
+  obtain ⟨s, c, hs, hb⟩ := seeding_total_strand (load_wf hload)
+  obtain ⟨_, h | h | ⟨a, h⟩⟩ := getConstraintsT_spec pilLawful (load_specCodes hload) hs hb
+  · exact Or.inr (Or.inl h.1)
+  · exact Or.inr (Or.inr h.1)
+  · exact Or.inl ⟨a, h.1⟩
 
 /-- Corollary: when arrays are returned, the specification is satisfiable (nothing over-constrained is passed on). -/
 theorem arrays_imply_satisfiable {mode : Layout} {stmts : List Stmt} {spec : Spec}
